@@ -40,6 +40,9 @@ pub struct Case {
     pub pres: Vec<bool>,
     pub zero: Vec<bool>,
     pub pres2: Vec<bool>,
+    /// real part given directly (magnitude sweep), overriding the stratum material
+    #[serde(default)]
+    pub x0: Option<f64>,
 }
 
 type St = (f64, f64, bool);
@@ -57,8 +60,70 @@ fn pick(strata: &[St], neg_mirror: bool, s: u8, u: f64) -> f64 {
     }
 }
 
+/// absolute tolerance floor (f64, f32) in the wide-magnitude stratum: ~2^24 (f32: 2^16) subnormal spacings
+pub const WIDE_FLOOR: (f64, f64) = (1e-300, 1e-40);
+/// one case in ten takes its real part from the wide-magnitude stratum
+pub fn is_wide(s: u8) -> bool {
+    s >= 230
+}
+/// wide-magnitude stratum: |x| = 10^e with e uniform in [-L, L], L = 300/(d+1) (f32: 36/(d+1)) for a
+/// type of total derivative order d: there the true value and every true derivative up to order d
+/// of each function (at worst ~ |x|^-(d+1)) is representable, so no over-/underflow is forced by
+/// the mathematics and the property's bound applies as stated
+pub fn wide_limit(is32: bool, d: usize) -> f64 {
+    (if is32 { 36.0 } else { 300.0 }) / (d as f64 + 1.0)
+}
+/// (lowest exponent, highest exponent, negative mirror allowed) of the wide stratum of a function
+pub fn wide_range(fun: usize, l: f64, neg: bool) -> (f64, f64, bool) {
+    if fun >= 24 {
+        match fun {
+            24 | 25 => (-l, -3.0, true),
+            26 | 27 => (-l, l, true),
+            _ => (-l, l, false),
+        }
+    } else {
+        match UNARY[fun] {
+            Fun::Recip | Fun::Abs | Fun::Signum | Fun::Cbrt | Fun::Atan | Fun::Asinh => (-l, l, true),
+            Fun::Sqrt | Fun::Ln | Fun::Log2 | Fun::Log10 => (-l, l, false),
+            Fun::Ln1p => {
+                if neg {
+                    (-l, -3.0, true)
+                } else {
+                    (-l, l, false)
+                }
+            }
+            Fun::Acosh => (0.05, l, false),
+            _ => (-l, -3.0, true),
+        }
+    }
+}
+pub fn wide_real(fun: usize, is32: bool, s: u8, u: f64, d: usize) -> f64 {
+    let l = wide_limit(is32, d);
+    let neg = s & 1 == 1;
+    let (lo, hi, mirror) = wide_range(fun, l, neg);
+    let e = lo + (hi - lo) * u;
+    let x = 10f64.powf(e);
+    if neg && mirror {
+        -x
+    } else {
+        x
+    }
+}
+
 /// real part for function `fun` from stratum material; `is32` narrows ranges to what f32 can hold
 pub fn real_part(fun: usize, is32: bool, s: u8, u: f64) -> f64 {
+    real_part_d(fun, is32, s % 230, u, 0)
+}
+/// as `real_part`, with the wide-magnitude stratum for a type of total derivative order `d`
+///
+/// `d` is the effective order: the total derivative order of the type, doubled for nested types
+/// (there the closed forms themselves run in dual arithmetic and an intermediate like the inner
+/// derivative -1/v^2 of 1/(1+x^2) must be representable too; observed: atan on Dual<Dual<f64>> at
+/// 7.6e81 loses a part of true size 4.6e-246 to such an intermediate underflow)
+pub fn real_part_d(fun: usize, is32: bool, s: u8, u: f64, d: usize) -> f64 {
+    if is_wide(s) {
+        return wide_real(fun, is32, s, u, d);
+    }
     // one stratum in 13: exact special points inside the domain (0, +-1, 2, +-0.5, 3)
     if s % 13 == 12 && fun < 24 {
         let f = UNARY[fun];
@@ -128,10 +193,32 @@ impl<'a> TyVisitor for V<'a> {
         let alg = lay.alg();
         ndv_oracle::ring::set_unit(<T::F as Flt>::U);
         let is32 = <T::F as Flt>::IS32;
-        let d = alg.depth();
+        let d = if T::levels() > 1 { 2 * alg.depth() + 1 } else { alg.depth() };
         let fname = fun_name(case.fun);
-        let x0 = real_part(case.fun, is32, case.s, case.u);
-        let fx = make_flat::<T::F>(&lay, x0, &case.parts, &case.pres, &case.zero);
+        let x0 = case.x0.unwrap_or_else(|| real_part_d(case.fun, is32, case.s, case.u, d));
+        let wide = case.x0.is_some() || is_wide(case.s) || (matches!(case.fun, 26 | 27) && is_wide(case.s2));
+        struct Reset;
+        impl Drop for Reset {
+            fn drop(&mut self) {
+                FLOOR_OVERRIDE.with(|c| c.set(None));
+            }
+        }
+        let _reset = Reset;
+        if wide {
+            FLOOR_OVERRIDE.with(|c| c.set(Some(WIDE_FLOOR)));
+        }
+        let mut fx = make_flat::<T::F>(&lay, x0, &case.parts, &case.pres, &case.zero);
+        // one case in four (unary functions): a pure first-order seed - every part of order >= 2 is
+        // zero, as for a freshly seeded variable; only there the f'' and f''' terms are not masked
+        // by f' times a higher-order part when the coefficients differ by orders of magnitude
+        let pure_seed = ((case.fun < 26 && case.s2 % 4 == 0) || case.x0.is_some()) && lay.max_order() >= 2;
+        if pure_seed {
+            for (i, sl) in lay.slots.iter().enumerate() {
+                if sl.order >= 2 {
+                    fx.vals[i] = 0.0;
+                }
+            }
+        }
         let x = T::from_flat(dims, &fx);
         let xj = lay.embed(&alg, &fx.vals, &fx.pres);
         let x0r = fx.vals[0];
@@ -139,14 +226,14 @@ impl<'a> TyVisitor for V<'a> {
         let y0 = match case.fun {
             26 => {
                 // atan2(x, y): keep away from the origin; 10 % exactly on an axis
-                let v = real_part(26, is32, case.s2, case.u2);
+                let v = real_part_d(26, is32, case.s2, case.u2, d);
                 if case.s2 % 10 == 9 {
                     0.0
                 } else {
                     v
                 }
             }
-            27 => real_part(27, is32, case.s2, case.u2),
+            27 => real_part_d(27, is32, case.s2, case.u2, d),
             _ => 0.0,
         };
         let fy = make_flat::<T::F>(&lay, y0, &case.parts2, &case.pres2, &case.zero);
@@ -202,10 +289,21 @@ impl<'a> TyVisitor for V<'a> {
         st.class(&format!("fun:{fname}"));
         st.class(&format!("type:{}", TYPES[case.ty].name));
         st.class(if x0r < 0.0 { "x<0" } else { "x>=0" });
+        if wide {
+            st.class("wide-magnitude real part");
+        }
         let _ = d;
         // non-trivial: a part of order >= 2 of the operand is non-zero (order-1 types: a
         // non-unit first-order part), and the case is not ill-conditioned
-        let hi = if lay.max_order() >= 2 { nonzero_parts(&lay, &fx, 2) >= 1 } else { lay.slots.iter().enumerate().any(|(i, s)| s.order == 1 && lay.slot_present(i, &fx.pres) && fx.vals[i] != 0.0 && fx.vals[i].abs() != 1.0) };
+        let first_nonunit = lay.slots.iter().enumerate().any(|(i, s)| s.order == 1 && lay.slot_present(i, &fx.pres) && fx.vals[i] != 0.0 && fx.vals[i].abs() != 1.0);
+        if pure_seed {
+            st.class("pure first-order seed (all higher-order operand parts zero)");
+        }
+        let hi = if pure_seed {
+            first_nonunit
+        } else if lay.max_order() >= 2 {
+            nonzero_parts(&lay, &fx, 2) >= 1
+        } else { lay.slots.iter().enumerate().any(|(i, s)| s.order == 1 && lay.slot_present(i, &fx.pres) && fx.vals[i] != 0.0 && fx.vals[i].abs() != 1.0) };
         if c.ill {
             st.class("ill-conditioned");
         }
@@ -222,6 +320,76 @@ impl<'a> TyVisitor for V<'a> {
         let _ = R::ZERO;
         Verdict::Pass { nontrivial }
     }
+}
+
+/// Deterministic magnitude sweep: every function on a freshly seeded variable (first-order parts 1 or -1.5,
+/// higher-order parts 0) at |x| = m * 10^e (two mantissas m) for every integer exponent e of the function's wide
+/// range, both signs - the standard use of the derivative drivers at very large and very small
+/// arguments, where a formula with an over- or underflowing intermediate goes wrong.
+fn sweep(_tier: Tier, st: &mut Stats) -> Vec<(Case, String, String)> {
+    const MANT: [f64; 5] = [1.0, 1.7, 3.1, 5.9, 8.3];
+    let mut fails = vec![];
+    for (ty, info) in TYPES.iter().enumerate() {
+        let scalar = matches!(info.kind, crate::registry::Kind::Scalar);
+        let d = if scalar || matches!(info.kind, crate::registry::Kind::Vector) { info.order } else { 2 * info.order + 1 };
+        let l = wide_limit(info.is32, d);
+        for fun in 0..NFUN {
+            for neg in [false, true] {
+                let (lo, hi, mirror) = wide_range(fun, l, neg);
+                if neg && !mirror {
+                    continue;
+                }
+                let mut k = 0usize;
+                let mut e = lo.ceil();
+                // stay half a decade inside the limit: the mantissa adds up to one decade
+                while e + 1.0 <= hi {
+                    for shift in [0usize, 2] {
+                        let x = MANT[(k + shift) % 5] * 10f64.powf(e);
+                        k += 1;
+                        let case = Case {
+                            ty,
+                            dims: (2, 2),
+                            fun,
+                            s: 255,
+                            u: 0.0,
+                            s2: 0,
+                            u2: (k % 7) as f64 / 7.0,
+                            parts: vec![if k % 2 == 0 { 1.0 } else { -1.5 }],
+                            parts2: vec![1.0],
+                            pres: vec![true],
+                            zero: vec![false],
+                            pres2: vec![true],
+                            x0: Some(if neg { -x } else { x }),
+                        };
+                        let mut tmp = Stats::new();
+                        tmp.frozen = true;
+                        let v = C01::check(&case, &mut tmp);
+                        st.evaluations += 1;
+                        match v {
+                            Verdict::Pass { nontrivial } => {
+                                st.passes += 1;
+                                st.count("magnitude_sweep_points", 1);
+                                // with the non-unit seed the verdict is non-trivial unless the reference bound is
+                                // too loose to decide (32 u e > 1e-3 * term magnitude)
+                                if k % 2 == 1 && !nontrivial && info.order >= 1 {
+                                    st.count("magnitude_sweep_points_with_loose_bound", 1);
+                                }
+                            }
+                            Verdict::Trivial(_) => st.count("magnitude_sweep_points_out_of_domain", 1),
+                            Verdict::Fail { sig, why } => {
+                                if fails.len() < 4 {
+                                    fails.push((case, sig, format!("[magnitude sweep] {why}")));
+                                }
+                            }
+                        }
+                    }
+                    e += 1.0;
+                }
+            }
+        }
+    }
+    st.class("magnitude sweep enumerated");
+    fails
 }
 
 impl Property for C01 {
@@ -247,6 +415,7 @@ impl Property for C01 {
                 pres,
                 zero,
                 pres2,
+                x0: None,
             })
             .boxed()
     }
@@ -254,7 +423,7 @@ impl Property for C01 {
         if case.ty >= TYPES.len() || case.fun >= NFUN || case.parts.is_empty() || case.parts2.is_empty() || case.pres.is_empty() || case.zero.is_empty() || case.pres2.is_empty() {
             return Verdict::Trivial("malformed case");
         }
-        let dims = [case.dims.0 as usize, case.dims.1 as usize];
+        let dims = [case.dims.0 as usize % 7, case.dims.1 as usize % 7];
         dispatch(case.ty, &dims, V { case, st })
     }
     fn cases(tier: Tier) -> u64 {
@@ -263,8 +432,11 @@ impl Property for C01 {
             Tier::Thorough => 20_000_000,
         }
     }
+    fn exhaustive(tier: Tier, st: &mut Stats) -> Vec<(Case, String, String)> {
+        sweep(tier, st)
+    }
     fn rule() -> String {
-        "generated: (type from the 58-type registry incl. f32, static/dynamic vector, nested; function from the 29 elementary functions; real part from per-function strata incl. negative, tiny, large; every derivative part from a mixture 0/+-1/dyadic/uniform/log-uniform; optional parts absent 25%, explicit zeros 10%). Oracle: the function applied in the independent group-nilsquare reference algebra with power-series recurrences, tolerance 32*u*e per part with e the running first-order rounding bound (summed magnitude of contributing terms). Non-trivial: an operand part of order >= 2 is non-zero (order-1 types: a non-zero non-unit first-order part) and 32*u*e <= 1e-3 * (summed term magnitude); distinct = distinct case fingerprints.".into()
+        "generated: (type from the 58-type registry incl. f32, static/dynamic vector, nested; function from the 29 elementary functions; real part from per-function strata incl. negative, tiny, large; every derivative part from a mixture 0/+-1/dyadic/uniform/log-uniform; optional parts absent 25%, explicit zeros 10%). Oracle: the function applied in the independent group-nilsquare reference algebra with power-series recurrences, tolerance 32*u*e per part with e the running first-order rounding bound (summed magnitude of contributing terms). One case in ten takes the real part from the wide-magnitude stratum |x| = 10^e, e uniform in +-300/(d+1) (f32: +-36/(d+1)), d the total order of the type (2d+1 for nested types), where every true derivative is representable; one unary case in four is a pure first-order seed (all operand parts of order >= 2 zero). Non-trivial: an operand part of order >= 2 is non-zero (order-1 types and pure seeds: a non-zero non-unit first-order part) and 32*u*e <= 1e-3 * (summed term magnitude); distinct = distinct case fingerprints.".into()
     }
     fn assumptions() -> Vec<String> {
         vec![
